@@ -85,9 +85,10 @@ def showRecon (n : NodeW) (ids : List Nat) : String :=
   let ps := all.filterMap (fun i => (st.get i).map (fun p =>
     let prs := sortNat p.privs
     s!"{i}:{match p.state with | .retryable => "R" | .fulfilled => "F" | .abandoned => "A"}:{if prs.isEmpty then "-" else ";".intercalate (prs.map toString)}"))
-  let ns := (st.evs.filter (fun e => match e with | .sent _ => true | _ => false)).length
-  let nf := (st.evs.filter (fun e => match e with | .failed _ => true | _ => false)).length
-  s!"claims={joinOr cl} fails={joinOr fl} pays={joinOr ps} evs=s{ns},f{nf}"
+  let ids (l : List Nat) : String := if l.isEmpty then "-" else ";".intercalate ((sortNat l).map toString)
+  let ns := st.evs.filterMap (fun e => match e with | .sent p => some p | _ => none)
+  let nf := st.evs.filterMap (fun e => match e with | .failed p => some p | _ => none)
+  s!"claims={joinOr cl} fails={joinOr fl} pays={joinOr ps} evs=s{ids ns},f{ids nf}"
 def showBg (w : World) : String :=
   let ev := bgEvents w
   let muc := ev.filterMap (fun e => match e with | .updatesComplete h => some h | _ => none)
@@ -118,7 +119,7 @@ def showE (s : ESt) : String :=
           → `ok confs=<n>` | `INCONSISTENT`      (ClosedMon.confirmedForReload / confirmations)
       spendfail <matured> <height | -> <best> <a|d|o0|o1> <resolved to user 0/1> → true | false      (Restart.failedOnReload for one outbound HTLC)
       recon <n> (<chan id> <world l/u/h/c/s/inflight/mi/mh/mc/ms | -> <monitor balances empty 0/1> <monitor HTLCs src:pre,..> <on-chain failed srcs> <channel pending srcs> <channel dropped srcs>)*n <payments id:R|F|A:auto:privs;..>
-          → `claims=.. fails=.. pays=.. evs=s<n>,f<n>`     (Restart.claims / fails / paysAfter; src = p<inbound chan>.<htlc id> | r<payment>.<session key>)
+          → `claims=.. fails=.. pays=.. evs=s<payments;..>,f<payments;..>`     (Restart.claims / fails / paysAfter; src = p<inbound chan>.<htlc id> | r<payment>.<session key>)
       bgev <latestId> <unblockedId> <inflight> <monId> → `muc:<id> | regen:<ids> | none` `unblock:0/1`     (Restart.bgEvents of a resumed channel)
       state <key> → `<latest> <watch> <in-flight> <chan nums> <nums of the monitor at watch>` -/
 def c10 : Drv where
